@@ -78,6 +78,13 @@ def writeLinkKeys (v : Nat) (t : List (Option (Nat × Key))) (ks : List (Key × 
   if v < 13 then ks.foldl (fun t x => addOrUpdate t x.2 x.1) t
   else (ks.zipIdx).foldl (fun t x => importAt t x.2 x.1.2 x.1.1) t
 
+/-- `reset_network_info` on an NCP in any earlier state: leaving the network drops the network parameters and
+the child table; `factory_reset` clears the key table and, from version 13 on (`tokenFactoryReset`), the frame
+counters; below 13 the NCP keeps its frame counter (the network is formed with NO_FRAME_COUNTER_RESET) -/
+def reset (v : Nat) (n : Ncp) : Ncp :=
+  { n with params := none, children := [], keys := List.replicate n.K none,
+           nwkFc := if v ≥ 13 then 0 else n.nwkFc }
+
 /-- `write_network_info` after `reset_network_info`; `gen` is the random default for a missing hashed TCLK -/
 def write (v : Nat) (s : Settings) (gen : Key) (n : Ncp) : Ncp :=
   let hashedUsed : Bool := v > 4
